@@ -29,7 +29,12 @@ class Tokenizer:
     _linesep = '\n'
     # an escaped backslash is matched first so it cannot start a unicode escape
     unicodesub = re.compile(r'\\\\|\\[0-9a-fA-F]{1,6}(?:\r\n|[\t\r\n\f\x20])?').sub
-    cleanstring = re.compile(r'\\((\r\n)|[\n\r\f])').sub
+    # for STRING and INVALID: like unicodesub, and a line continuation
+    # (backslash + newline) is removed in the same pass over the source text,
+    # so that a newline written as an escape is never taken for a continuation
+    stringsub = re.compile(
+        r'\\\\|\\(?:\r\n|[\n\r\f])|\\[0-9a-fA-F]{1,6}(?:\r\n|[\t\r\n\f\x20])?'
+    ).sub
 
     def __init__(self, macros=None, productions=None, doComments=True):
         """
@@ -114,6 +119,9 @@ class Tokenizer:
             if m.group(0) == '\\\\':
                 # escaped backslash, kept as is
                 return m.group(0)
+            if m.group(0)[1] in '\n\r\f':
+                # line continuation inside a string (only matched by stringsub)
+                return ''
             num = int(m.group(0)[1:], 16)
             if num == 0x5C:
                 # values keep simple escapes so a backslash must stay escaped
@@ -221,10 +229,11 @@ class Tokenizer:
                         ):
                             # may contain unicode escape, replace with normal
                             # char but do not _normalize (?)
-                            value = self.unicodesub(_repl, found)
                             if name in ('STRING', 'INVALID'):  # 'URI'?
-                                # remove \ followed by nl (so escaped) from string
-                                value = self.cleanstring('', value)
+                                # also remove \ followed by nl (so escaped) from string
+                                value = self.stringsub(_repl, found)
+                            else:
+                                value = self.unicodesub(_repl, found)
 
                         else:
                             if 'ATKEYWORD' == name:
